@@ -23,9 +23,14 @@ def run(m):
             return (m["name"], "PATCH-ERROR old occurs %d times" % n, 0)
         open(p, "w").write(s.replace(m["old"], m["new"]))
         t0 = time.time()
-        env = dict(os.environ, VERIF_REPO=d, VERIF_NPROC=os.environ.get("MUT_NPROC", "8"),
-                   VERIF_HOME_REPLAYS="discard")
-        args = [os.path.join(HERE, "bin", "check"), prop, "--no-evidence"]
+        # shadow home: bin/check derives VERIF_HOME from its own location, so replays written for this mutant stay
+        # private (otherwise recipes found on one mutant are replayed on - and catch - the next one)
+        home = os.path.join(d, "home")
+        os.makedirs(os.path.join(home, "bin"))
+        shutil.copy(os.path.join(HERE, "bin", "check"), os.path.join(home, "bin", "check"))
+        os.symlink(os.path.join(HERE, "crverif"), os.path.join(home, "crverif"))
+        env = dict(os.environ, VERIF_REPO=d, VERIF_NPROC=os.environ.get("MUT_NPROC", "8"))
+        args = [os.path.join(home, "bin", "check"), prop, "--no-evidence"]
         for f in m.get("facets", []):
             args += ["--facet", f]
         r = subprocess.run(args, env=env, capture_output=True, text=True)
@@ -33,7 +38,8 @@ def run(m):
         status = "caught" if r.returncode == 1 else ("MISSED" if r.returncode == 0 else "HARNESS-ERROR rc=%d" % r.returncode)
         if r.returncode not in (0, 1):
             sys.stderr.write(r.stdout[-3000:] + r.stderr[-3000:])
-        return (m["name"], status + " " + ",".join(buckets)[:400], time.time() - t0)
+        nrep = len(os.listdir(os.path.join(home, "replays", prop))) if os.path.isdir(os.path.join(home, "replays", prop)) else 0
+        return (m["name"], status + " " + ",".join(buckets)[:400] + " [%d replays]" % nrep, time.time() - t0)
     finally:
         shutil.rmtree(d, ignore_errors=True)
 with ThreadPoolExecutor(int(os.environ.get("MUT_PAR", "2"))) as ex:
